@@ -83,35 +83,35 @@ def build(rep, core, nlead, eff, s):
 
     if rep == "nn_flat":
         class M(torch.nn.Module):
-            def __init__(self):
+            def __init__(self, a, b, W):
                 super().__init__()
                 self.a, self.b, self.W = a, b, W
 
             def forward(self, *lead):
                 return core(*lead, self.a, self.b, self.W, s)
-        m = M()
+        m = M(a, b, W)
         return Built(m.forward, (), [("m", m)], ())
 
     if rep == "nn_nested":
         class Inner(torch.nn.Module):
-            def __init__(self):
+            def __init__(self, a, b, W):
                 super().__init__()
                 self.b, self.W = b, W
 
         class Outer(torch.nn.Module):
-            def __init__(self):
+            def __init__(self, a, b, W):
                 super().__init__()
-                self.inner = Inner()
+                self.inner = Inner(a, b, W)
                 self.a = a
 
             def forward(self, *lead):
                 return core(*lead, self.a, self.inner.b, self.inner.W, s)
-        m = Outer()
+        m = Outer(a, b, W)
         return Built(m.forward, (), [("m", m)], ())
 
     if rep == "nn_method_mixed":
         class M(torch.nn.Module):
-            def __init__(self):
+            def __init__(self, a, b, W):
                 super().__init__()
                 self.W = W
                 self.a = a
@@ -119,24 +119,24 @@ def build(rep, core, nlead, eff, s):
             def h(self, *args):
                 lead, (ps, pb) = lead_rest(args)
                 return core(*lead, self.a, pb, self.W, ps)
-        m = M()
+        m = M(a, b, W)
         return Built(m.h, (s, b), [("m", m)], (1,))
 
     if rep == "nn_tied":
         class M(torch.nn.Module):
-            def __init__(self):
+            def __init__(self, a, b, W):
                 super().__init__()
                 self.a, self.b, self.W = a, b, W
                 self.a_tied = self.a
 
             def forward(self, *lead):
                 return core(*lead, 0.25 * self.a + 0.75 * self.a_tied, self.b, self.W, s)
-        m = M()
+        m = M(a, b, W)
         return Built(m.forward, (), [("m", m)], ())
 
     if rep == "em_flat":
         class E(xitorch.EditableModule):
-            def __init__(self):
+            def __init__(self, a, b, W):
                 self.a, self.b, self.W = a, b, W
                 self.s = s
 
@@ -147,20 +147,20 @@ def build(rep, core, nlead, eff, s):
                 if methodname == "h":
                     return [prefix + "a", prefix + "b", prefix + "W"]
                 raise KeyError(methodname)
-        e = E()
+        e = E(a, b, W)
         return Built(e.h, (), [("e", e)], ())
 
     if rep == "em_container":
         class Sub(object):
-            def __init__(self):
+            def __init__(self, a, b, W):
                 self.W = W
                 self.note = "sub"
 
         class E(xitorch.EditableModule):
-            def __init__(self):
+            def __init__(self, a, b, W):
                 self.lst = [1.0, a, "x"]
                 self.dct = {"k": 2, "b": b}
-                self.sub = Sub()
+                self.sub = Sub(a, b, W)
 
             def h(self, *lead):
                 return core(*lead, self.lst[1], self.dct["b"], self.sub.W, s)
@@ -169,12 +169,12 @@ def build(rep, core, nlead, eff, s):
                 if methodname == "h":
                     return [prefix + "sub.W", prefix + "lst[1]", prefix + "dct['b']"]
                 raise KeyError(methodname)
-        e = E()
+        e = E(a, b, W)
         return Built(e.h, (), [("e", e)], ())
 
     if rep == "em_alias":
         class E(xitorch.EditableModule):
-            def __init__(self):
+            def __init__(self, a, b, W):
                 self.a, self.b, self.W = a, b, W
                 self.a_alias = a
                 self.pair = [a, b]
@@ -187,20 +187,20 @@ def build(rep, core, nlead, eff, s):
                 if methodname == "h":
                     return [prefix + "a", prefix + "pair[1]", prefix + "b", prefix + "a_alias", prefix + "W", prefix + "pair[0]"]
                 raise KeyError(methodname)
-        e = E()
+        e = E(a, b, W)
         return Built(e.h, (), [("e", e)], ())
 
     if rep in ("em_nn", "em_nn_reordered"):
         class Mod(torch.nn.Module):
-            def __init__(self):
+            def __init__(self, a, b, W):
                 super().__init__()
                 self.a, self.b, self.W = a, b, W
 
         order = ["mod.a", "mod.b", "mod.W"] if rep == "em_nn" else ["mod.W", "mod.a", "mod.b"]
 
         class E(xitorch.EditableModule):
-            def __init__(self):
-                self.mod = Mod()
+            def __init__(self, a, b, W):
+                self.mod = Mod(a, b, W)
 
             def h(self, *lead):
                 return core(*lead, self.mod.a, self.mod.b, self.mod.W, s)
@@ -209,12 +209,12 @@ def build(rep, core, nlead, eff, s):
                 if methodname == "h":
                     return [prefix + n for n in order]
                 raise KeyError(methodname)
-        e = E()
+        e = E(a, b, W)
         return Built(e.h, (), [("e", e), ("e.mod", e.mod)], ())
 
     if rep == "em_mixed":
         class E(xitorch.EditableModule):
-            def __init__(self):
+            def __init__(self, a, b, W):
                 self.W = W
 
             def h(self, *args):
@@ -225,7 +225,7 @@ def build(rep, core, nlead, eff, s):
                 if methodname == "h":
                     return [prefix + "W"]
                 raise KeyError(methodname)
-        e = E()
+        e = E(a, b, W)
         return Built(e.h, (a, s, b), [("e", e)], (0, 2))
 
     if rep == "sib_single":
@@ -246,7 +246,7 @@ def build(rep, core, nlead, eff, s):
 
     if rep in ("sib_multi", "sib_multi_shared", "sib_multi_nn"):
         class E1(xitorch.EditableModule):
-            def __init__(self):
+            def __init__(self, a, b, W):
                 self.a = a
 
             def geta(self):
@@ -259,7 +259,7 @@ def build(rep, core, nlead, eff, s):
 
         if rep == "sib_multi_nn":
             class E2(torch.nn.Module):
-                def __init__(self):
+                def __init__(self, a, b, W):
                     super().__init__()
                     self.b, self.W = b, W
 
@@ -269,7 +269,7 @@ def build(rep, core, nlead, eff, s):
             shared = rep == "sib_multi_shared"
 
             class E2(xitorch.EditableModule):
-                def __init__(self):
+                def __init__(self, a, b, W):
                     self.b, self.W = b, W
                     if shared:
                         self.a = a
@@ -281,7 +281,7 @@ def build(rep, core, nlead, eff, s):
                     if methodname == "getbw":
                         return [prefix + "b", prefix + "W"] + ([prefix + "a"] if shared else [])
                     raise KeyError(methodname)
-        e1, e2 = E1(), E2()
+        e1, e2 = E1(a, b, W), E2(a, b, W)
 
         @xitorch.make_sibling(e1.geta, e2.getbw)
         def f(*lead):
